@@ -348,8 +348,9 @@ where
 
 fn faults_ser(sc: &Scenario, n: u32) -> Vec<Fault> {
     match &sc.fault {
-        FaultSpec::Ser(k) => vec![Fault::Ser { k: *k % n.max(1) }, Fault::None],
-        FaultSpec::SerEvery => (0..n.min(48)).map(|k| Fault::Ser { k }).chain([Fault::None]).collect(),
+        FaultSpec::Ser(k) => vec![Fault::Ser { k: *k % n.max(1), exit: false }, Fault::None],
+        FaultSpec::SerExit(k) => vec![Fault::Ser { k: *k % n.max(1), exit: true }, Fault::None],
+        FaultSpec::SerEvery => (0..n.min(48)).flat_map(|k| [Fault::Ser { k, exit: false }, Fault::Ser { k, exit: true }]).chain([Fault::None]).collect(),
         _ => vec![Fault::None],
     }
 }
@@ -634,7 +635,8 @@ pub fn generate(prop: &str, rng: &mut Rng) -> Scenario {
     sc.whseed = rng.next() % 5;
     match prop {
         "C07" => match rng.below(6) {
-            0 | 1 => sc.fault = FaultSpec::Ser(rng.below(64) as u32),
+            0 => sc.fault = FaultSpec::Ser(rng.below(64) as u32),
+            1 => sc.fault = FaultSpec::SerExit(rng.below(64) as u32),
             2 => sc.fault = FaultSpec::SerEvery,
             _ => {}
         },
